@@ -182,7 +182,6 @@ fn unit() -> Unit {
                 let n2 = name.clone();
                 let is_topic_field = matches!(field, "create-topic.name" | "get-topic.topic" | "delete-topic.topic" | "publish.topic" | "list-topic-subs.topic" | "create-sub.topic");
                 let is_project_field = matches!(field, "list-topics.project" | "list-subs.project");
-                let field_kind = field;
                 let malformed = if is_project_field { !name.starts_with("projects/") } else if is_topic_field { recognise(&name, "/topics/").is_none() } else { recognise(&name, "/subscriptions/").is_none() };
                 let st = tryv!(cx.settle("client:request", async move {
                     match field {
